@@ -1,4 +1,4 @@
-// C13 — ring-buffer queue is a faithful byte deque            vp-link: core
+// C13 — ring-buffer queue is a faithful byte deque            vp-link: core cxx
 //
 // G: drawn initial state (capacity, start offset, fill; wrapped in more than half of the cases, exact-size
 //    malloc block so that ASan sees every access outside the storage) x history over the C queue API
@@ -11,6 +11,7 @@
 #include "vp.hpp"
 
 #include "mpt_c.hpp"
+#include "io.h"  // mpt++: io::queue
 
 #include <cerrno>
 #include <deque>
@@ -149,8 +150,7 @@ static void note(Ctx &c, Op op, bool ok, bool both, bool &nt) {
   }
 }
 
-static void init_state(Ctx &c, Store &st, Model &m) {
-  queue *q = st.q;
+static void init_state(Ctx &c, queue *q, Model &m) {
   size_t cap = 0, off = 0, fill = 0;
   switch (c.weighted({9, 4, 2, 1, 1})) {
     case 0:  // wrapped
@@ -205,7 +205,7 @@ static void run_c(Ctx &c) {
   Store st;
   queue *q = st.q;
   Model m;
-  init_state(c, st, m);
+  init_state(c, q, m);
   verify(c, q, m, "setup");
   bool nt = false;
   unsigned steps = 0;
@@ -476,15 +476,226 @@ static void run_c(Ctx &c) {
       }
     }
     verify(c, q, m, what);
+    if (s.wrapped && s.low > 1024 && s.high > 1024 && !seg(q).wrapped && m.size() == s.len) c.label("rotation:block-swaps");
   }
   c.count("steps", steps);
   if (nt) c.nontrivial();
 }
 
+// ---- scenario 2: the C++ wrapper io::queue (push/unshift grow the storage on demand)
+struct CxxQueue : public io::queue {
+  ::mpt::queue *raw() { return &_d; }
+};
+enum XOp { XPrepare, XPush, XUnshift, XPop, XShift, XWrite, XRead, XPeek, NXOps };
+static const char *kXOp[] = {"cxx:prepare", "cxx:push", "cxx:unshift", "cxx:pop", "cxx:shift", "cxx:write", "cxx:read", "cxx:peek"};
+static void xnote(Ctx &c, XOp op, bool ok, bool both, bool &nt) {
+  char l[LabelLen];
+  snprintf(l, sizeof l, "%s:%s", kXOp[op], ok ? "ok" : "refused");
+  c.label(l);
+  if (ok && both) {
+    snprintf(l, sizeof l, "both-segments:%s", kXOp[op]);
+    c.label(l);
+    nt = true;
+  }
+}
+
+static void run_cxx(Ctx &c) {
+  CxxQueue cq;  // the destructor releases the storage with mpt_queue_resize(0)
+  ::mpt::queue *q = cq.raw();
+  Model m;
+  c.logf("scenario: C++ io::queue");
+  init_state(c, q, m);
+  verify(c, q, m, "setup");
+  bool nt = false;
+  unsigned steps = 0;
+  while (c.more() && steps++ < 200) {
+    XOp op = (XOp)c.weighted({2, 8, 6, 8, 8, 5, 5, 5});
+    Seg s = seg(q);
+    size_t n0 = m.size();
+    char what[160];
+    switch (op) {
+      case XPrepare: {
+        size_t n = s.max > 12000 ? c.range(0, 8) : c.near({0, 1, s.free, s.free + 1, 64}, 200);
+        c.logf("> prepare(%zu)   [off %zu len %zu max %zu low %zu high %zu]", n, s.off, s.len, s.max, s.low, s.high);
+        paint_stack();
+        bool r = cq.prepare(n);
+        snprintf(what, sizeof what, "io::queue::prepare(%zu) = %d", n, r);
+        c.logf("  %s", what);
+        if (r) VP_CHECK(c, q->len <= q->max && q->max - q->len >= n, "prepare-size", "%s: %zu bytes unused (max %zu len %zu)", what, q->max - q->len, q->max, q->len);
+        xnote(c, op, r, s.wrapped && n > s.free, nt);
+        break;
+      }
+      case XPush:
+      case XUnshift: {
+        size_t n = s.max > 12000 ? c.range(0, 8) : rel(c, s, s.max + 12);
+        bool zero = c.chance(40);
+        std::vector<uint8_t> d;
+        if (!zero) d = opdata(c, n);
+        else d.assign(n, 0);
+        const void *src = zero ? 0 : (d.empty() ? (const void *)"" : d.data());
+        c.logf("> %s(%s, %zu)   [off %zu len %zu max %zu low %zu high %zu]", kXOp[op], zero ? "NULL" : "data", n, s.off, s.len, s.max, s.low, s.high);
+        paint_stack();
+        bool r = op == XPush ? cq.push(src, n) : cq.unshift(src, n);
+        snprintf(what, sizeof what, "io::queue::%s(%s, %zu) = %d", kXOp[op] + 4, zero ? "NULL" : hex(d.data(), d.size(), 12).c_str(), n, r);
+        c.logf("  %s", what);
+        if (r) {
+          if (op == XPush) m.insert(m.end(), d.begin(), d.end());
+          else m.insert(m.begin(), d.begin(), d.end());
+        }
+        xnote(c, op, r, s.wrapped && n, nt);
+        break;
+      }
+      case XPop:
+      case XShift: {
+        size_t n = rel(c, s, s.max + 2);
+        bool nodata = c.chance(100);
+        std::vector<uint8_t> d(nodata ? 0 : n + 1, 0xCD);
+        c.logf("> %s(%s, %zu)   [off %zu len %zu max %zu low %zu high %zu]", kXOp[op], nodata ? "NULL" : "buf", n, s.off, s.len, s.max, s.low, s.high);
+        paint_stack();
+        bool r = op == XPop ? cq.pop(nodata ? 0 : d.data(), n) : cq.shift(nodata ? 0 : d.data(), n);
+        snprintf(what, sizeof what, "io::queue::%s(%s, %zu) = %d", kXOp[op] + 4, nodata ? "NULL" : "buf", n, r);
+        c.logf("  %s", what);
+        if (r && n) {
+          VP_CHECK(c, n <= n0, "over-ask-accepted", "%s with only %zu bytes stored", what, n0);
+          size_t from = op == XPop ? n0 - n : 0;
+          std::vector<uint8_t> want(m.begin() + from, m.begin() + from + n);
+          if (!nodata) VP_CHECK(c, !memcmp(d.data(), want.data(), n), "removed-data", "%s: target buffer holds %s, the deque removed %s", what, hex(d.data(), n, 24).c_str(),
+                                hex(want.data(), n, 24).c_str());
+          m.erase(m.begin() + from, m.begin() + from + n);
+        }
+        if (!nodata) VP_CHECK(c, d[n] == 0xCD, "target-overrun", "%s wrote behind the %zu byte target buffer", what, n);
+        xnote(c, op, r, s.wrapped && n <= n0 && (op == XPop ? n > s.high : n > s.low), nt);
+        break;
+      }
+      case XWrite: {
+        size_t part = c.weighted({1, 6, 3, 2, 2}), cnt = c.range(0, 6);
+        if (part == 4) part = rel(c, s, 24);
+        std::vector<uint8_t> d = opdata(c, part * cnt);
+        c.logf("> write(%zu, %s, %zu)   [off %zu len %zu max %zu low %zu high %zu]", cnt, hex(d.data(), d.size(), 12).c_str(), part, s.off, s.len, s.max, s.low, s.high);
+        paint_stack();
+        ssize_t r = cq.write(cnt, d.empty() ? (const void *)"" : d.data(), part);
+        snprintf(what, sizeof what, "io::queue::write(%zu elements of %zu) = %zd", cnt, part, r);
+        c.logf("  %s", what);
+        VP_CHECK(c, r <= (ssize_t)cnt, "write-count", "%s: more elements than offered", what);
+        // the answer is the number of elements now stored: the content must have grown by exactly those
+        size_t added = (r > 0 && part) ? (size_t)r * part : 0;
+        VP_CHECK(c, q->len == n0 + added, "write-count", "%s, but the content grew by %zd bytes", what, (ssize_t)(q->len - n0));
+        m.insert(m.end(), d.begin(), d.begin() + added);
+        xnote(c, op, r >= 0, s.wrapped && added, nt);
+        break;
+      }
+      case XRead: {
+        size_t part = c.weighted({1, 6, 3, 2, 2}), cnt = c.range(0, 6);
+        if (part == 4) part = rel(c, s, 24);
+        std::vector<uint8_t> d(part * cnt + 1, 0xCD);
+        c.logf("> read(%zu, buf, %zu)   [off %zu len %zu max %zu low %zu high %zu]", cnt, part, s.off, s.len, s.max, s.low, s.high);
+        paint_stack();
+        ssize_t r = cq.read(cnt, d.data(), part);
+        snprintf(what, sizeof what, "io::queue::read(%zu elements of %zu) = %zd", cnt, part, r);
+        c.logf("  %s", what);
+        VP_CHECK(c, r <= (ssize_t)cnt, "read-count", "%s: more elements than asked for", what);
+        VP_CHECK(c, d[part * cnt] == 0xCD, "target-overrun", "%s wrote behind the target buffer", what);
+        size_t took = (r > 0 && part) ? (size_t)r * part : 0;
+        VP_CHECK(c, took <= n0, "over-ask-accepted", "%s with only %zu bytes stored", what, n0);
+        VP_CHECK(c, q->len == n0 - took, "read-count", "%s, but the content shrank by %zd bytes", what, (ssize_t)(n0 - q->len));
+        if (took) {
+          // which end "read" takes from is not documented: accept element-wise removal from either end
+          bool back = true, front = true;
+          for (size_t i = 0; i < (size_t)r; i++)
+            for (size_t k = 0; k < part; k++) {
+              if (d[i * part + k] != m[n0 - (i + 1) * part + k]) back = false;
+              if (d[i * part + k] != m[i * part + k]) front = false;
+            }
+          VP_CHECK(c, back || front, "removed-data", "%s: buffer holds %s, matching neither end of the deque %s", what, hex(d.data(), took, 24).c_str(), mhex(m, 0, n0).c_str());
+          // both fit the buffer (repetitive content): the remaining content decides
+          if (back && front) {
+            const uint8_t *b = (const uint8_t *)q->base;
+            for (size_t i = 0; i < q->len && q->off <= q->max; i++)
+              if (b[(q->off + i) % q->max] != m[i]) { back = false; break; }
+          }
+          if (back) m.erase(m.end() - took, m.end());
+          else m.erase(m.begin(), m.begin() + took);
+          c.label(back ? "cxx:read:from-end" : "cxx:read:from-start");
+        }
+        xnote(c, op, r >= 0, s.wrapped && took > (size_t)0 && took > s.high, nt);
+        break;
+      }
+      default: {
+        size_t req = c.flip() ? 0 : rel(c, s, s.len + 2);
+        c.logf("> peek(%zu)   [off %zu len %zu max %zu low %zu high %zu]", req, s.off, s.len, s.max, s.low, s.high);
+        paint_stack();
+        span<const uint8_t> v = cq.peek(req);
+        size_t got = v.size();
+        snprintf(what, sizeof what, "io::queue::peek(%zu) = %zu bytes", req, got);
+        c.logf("  %s", what);
+        VP_CHECK(c, got <= n0, "over-ask-accepted", "%s with only %zu bytes stored", what, n0);
+        VP_CHECK(c, inside(q, v.begin(), got), "peek-range", "%s: view leaves the storage of %zu", what, q->max);
+        std::vector<uint8_t> want(m.begin(), m.begin() + got);
+        VP_CHECK(c, !got || !memcmp(v.begin(), want.data(), got), "peek-mismatch", "%s: view holds %s, the deque starts with %s", what, hex(v.begin(), got, 24).c_str(), hex(want.data(), got, 24).c_str());
+        // peek() is how pipe<T>::elements() and the bundled example obtain the whole content; peek(n) must give at least n when stored
+        if (!req) VP_CHECK(c, got == n0, "peek-short", "%s of %zu stored", what, n0);
+        else if (req <= n0) VP_CHECK(c, got >= req, "peek-short", "%s of %zu stored", what, n0);
+        xnote(c, XPeek, true, s.wrapped && got > s.low, nt);
+      }
+    }
+    verify(c, q, m, what);
+  }
+  c.count("steps", steps);
+  if (nt) c.nontrivial();
+}
+
+// Lazy binding: the first call through a PLT entry (harness -> library and library -> library) runs the
+// dynamic linker's resolver on the stack region that was just painted. Every entry point is called once per
+// process on a scratch queue so that a case behaves the same in a worker that ran other cases before and in
+// a fresh replay process. (None of these calls hits a known defect: nothing wrapped is cropped or popped.)
+static int never(const void *, void *) { return 1; }
+static void warm_up() {
+  static bool done;
+  if (done) return;
+  done = true;
+  std::vector<uint8_t> buf(4000, 1);
+  size_t a, b;
+  {
+    CObj<queue> w;
+    mpt_queue_prepare(w, 4000);
+    mpt_qpush(w, 3500, buf.data());
+    mpt_qshift(w, 2400, buf.data());
+    mpt_qpush(w, 2700, buf.data());  // wraps: 1600 bytes at the end, 2200 at the start
+    mpt_queue_get(w, 10, 3000, buf.data());
+    mpt_queue_set(w, 10, 3000, buf.data());
+    mpt_queue_find(w, 1, never, 0);
+    mpt_queue_empty(w, &a, &b);
+    mpt_queue_data(w, &a);
+    mpt_queue_align(w, 0);  // rotation by block swaps
+    mpt_queue_string(w);
+    mpt_qunshift(w, 3, buf.data());
+    mpt_qpre(w, 1);
+    mpt_qpost(w, 1);
+    mpt_qpop(w, 2, buf.data());
+    mpt_queue_crop(w, 5, 3);
+    mpt_queue_resize(w, 3900);
+    mpt_queue_resize(w, 0);
+  }
+  {
+    CxxQueue x;
+    x.prepare(64);
+    x.push(buf.data(), 8);
+    x.unshift(buf.data(), 8);
+    x.write(2, buf.data(), 2);
+    x.read(1, buf.data(), 2);
+    x.pop(buf.data(), 1);
+    x.pop(0, 1);
+    x.shift(buf.data(), 1);
+    x.shift(0, 1);
+    x.peek(0);
+  }
+}
+
 static void run(Ctx &c) {
+  warm_up();
   uint8_t mode = c.u8();
-  (void)mode;
-  run_c(c);
+  if ((mode & 3) == 3) { c.label("scenario:cxx"); run_cxx(c); }
+  else { c.label("scenario:c"); run_c(c); }
 }
 
 static Target t = {
